@@ -367,9 +367,9 @@ def number_value(tok):
 
 def check_typedefs(pp):
     t = tokenize(pp["tapkee/defines/types.hpp"])
-    if find_seq(t, ["typedef", "double", "ScalarType", ";"]) < 0:
+    if find_seq(t, ["typedef", "double", "ScalarType", ";"]) < 0 and find_seq(t, ["using", "ScalarType", "=", "double", ";"]) < 0:
         raise TranslateError("ScalarType is no longer `double`")
-    if find_seq(t, ["typedef", "int", "IndexType", ";"]) < 0:
+    if find_seq(t, ["typedef", "int", "IndexType", ";"]) < 0 and find_seq(t, ["using", "IndexType", "=", "int", ";"]) < 0:
         raise TranslateError("IndexType is no longer `int`")
 
 
@@ -432,7 +432,7 @@ def parse_keywords(repo, pp, methods, aux, mdefaults):
             j += 1
         ty = type_of(toks[i + 5:j])
         ident = toks[j + 1]
-        if toks[j + 2] != "(":
+        if toks[j + 2] not in ("(", "{"):
             raise TranslateError("keyword %s: unexpected initialiser" % ident)
         e = match_close(toks, j + 2)
         args = split_top(toks[j + 3:e])
@@ -501,10 +501,11 @@ class BParser:
     """C++ arithmetic over literals, n_vectors, current_dimension, parameters[kw], static_cast<IndexType|ScalarType>(..)
     -> (lean term, is_int)"""
 
-    def __init__(self, toks, kwtypes=None):
+    def __init__(self, toks, kwtypes=None, env=None):
         self.t = toks
         self.i = 0
         self.kwtypes = kwtypes or {}
+        self.env = env if env is not None else getattr(BParser, "env", {})   # local definitions of the enclosing validate()
 
     def peek(self, k=0):
         return self.t[self.i + k] if self.i + k < len(self.t) else None
@@ -553,6 +554,8 @@ class BParser:
             r = self.sum()
             self.expect(")")
             return r
+        if t in self.env:
+            return self.env[t]
         if t == "n_vectors":
             return ("BExpr.nVectors", True)
         if t == "current_dimension":
@@ -635,6 +638,56 @@ def parse_check(toks, kwidents, kwtypes=None):
     return "{ kw := Kw.%s, pred := %s, orThrow := %s }" % (kw, p, lean_bool(throws)), kw
 
 
+LOCAL_TYPES = {"IndexType": True, "int": True, "ScalarType": False, "double": False, "auto": None}
+CONTROL_WORDS = {"parameters", "throw", "return", "goto", "exit", "abort"}
+
+
+def validate_items(body, kwidents, kwtypes, where, helpers, depth=0):
+    """VStmt lean terms of a validate() body.  Understood: checks, guarded checks, local numeric definitions (substituted
+    into later bounds), calls of argument-less member helpers (inlined), and statements that touch neither the parameters
+    nor the control flow (opaque: logging, assertions on sizes, ... - they cannot change which exception is raised)."""
+    if depth > 4:
+        raise TranslateError("helper recursion in %s::validate()" % where)
+    items = []
+    for st in statements(body):
+        if is_check_stmt(st):
+            items.append("VStmt.check %s" % parse_check(st, kwidents)[0])
+            continue
+        if st[0] == "if":
+            items.append(parse_guarded(st, kwidents, kwtypes, where))
+            continue
+        # helper call:  name ( ) ;   /  this -> name ( ) ;
+        core = st[2:] if st[:2] == ["this", "->"] else st
+        if len(core) == 4 and core[1:] == ["(", ")", ";"] and core[0] in helpers:
+            params, hb = helpers[core[0]]
+            if params:
+                raise TranslateError("helper %s with parameters called from %s::validate()" % (core[0], where))
+            items += validate_items(hb, kwidents, kwtypes, where, helpers, depth + 1)
+            continue
+        # local definition:  [const] T name = expr ;
+        d = [t for t in st if t != "const"]
+        if len(d) >= 5 and d[0] in LOCAL_TYPES and re.fullmatch(r"[A-Za-z_]\w*", d[1]) and d[2] == "=" and d[-1] == ";":
+            term, isint = BParser(d[3:-1], kwtypes).parse()
+            want = LOCAL_TYPES[d[0]]
+            if want is True and not isint:
+                term, isint = "BExpr.toInt %s" % paren(term), True
+            elif want is False and isint:
+                term, isint = "BExpr.toReal %s" % paren(term), False
+            BParser.env[d[1]] = (term, isint)
+            continue
+        if not (set(st) & CONTROL_WORDS) and not any(t in helpers for t in st):
+            continue        # opaque statement
+        raise TranslateError("unrecognised statement in %s::validate(): %s" % (where, " ".join(st)))
+    return items
+
+
+def opaque(st, extra=()):
+    """a statement of the front end that touches neither the parameters, nor the callbacks, nor the control flow"""
+    bad = CONTROL_WORDS | set(CALLBACK_MEMBERS) | {"n_vectors", "current_dimension", "begin", "end", "method", "context", "output",
+                                                    "kernel_callback", "distance_callback", "features_callback", "catch", "try"} | set(extra)
+    return not (set(st) & bad)
+
+
 CMP = {">": "Cmp.gt", ">=": "Cmp.ge", "<": "Cmp.lt", "<=": "Cmp.le", "==": "Cmp.eq"}
 
 
@@ -702,13 +755,14 @@ def implementation_classes(pp, methods):
             e = match_close(toks, b)
             body = toks[b + 1:e]
             members = class_members(body, cname)
-            if set(members) - {"validate", "embed"}:
-                raise TranslateError("%s has unexpected member functions %s" % (cname, sorted(set(members) - {"validate", "embed"})))
             if "validate" not in members or "embed" not in members:
                 raise TranslateError("%s lacks validate() or embed()" % cname)
+            if members["validate"][0] or members["embed"][0]:
+                raise TranslateError("%s: validate()/embed() take arguments" % cname)
             if ident in out:
                 raise TranslateError("two implementation classes for " + ident)
-            out[ident] = (members["validate"], members["embed"], fname)
+            local_helpers = {k: v for k, v in members.items() if k not in ("validate", "embed")}
+            out[ident] = (members["validate"][1], members["embed"][1], fname, local_helpers)
             i = e
     missing = [m for m in idents if m not in out]
     if missing:
@@ -729,12 +783,27 @@ def class_members(body, cname):
         if t in ("typedef", "using"):
             i = body.index(";", i) + 1
             continue
+        if t == "template" and body[i + 1] == "<":
+            depth, k = 0, i + 1
+            while True:
+                if body[k] == "<":
+                    depth += 1
+                elif body[k] == ">":
+                    depth -= 1
+                    if depth == 0:
+                        break
+                k += 1
+            i = k + 1
+            continue
         if t == cname:      # constructor
             p = match_close(body, i + 1)
             k = body.index("{", p)
             i = match_close(body, k) + 1
             continue
-        # return-type tokens, name, '(' ... ')' '{' ... '}'
+        if t == "static" or t == "constexpr":       # static constants
+            i = body.index(";", i) + 1
+            continue
+        # return-type tokens, name, '(' ... ')' [const] '{' ... '}'
         k = i
         while k < n and body[k] != "(":
             if body[k] in (";", "{", "}"):
@@ -742,12 +811,14 @@ def class_members(body, cname):
             k += 1
         name = body[k - 1]
         p = match_close(body, k)
-        if body[p + 1] != "{":
+        q = p + 1
+        while q < n and body[q] in ("const", "noexcept", "override"):
+            q += 1
+        if q >= n or body[q] != "{":
             raise TranslateError("member %s of %s has no inline body" % (name, cname))
-        e = match_close(body, p + 1)
-        if body[k + 1:p]:
-            raise TranslateError("member %s of %s takes arguments" % (name, cname))
-        members[name] = body[p + 2:e]
+        e = match_close(body, q)
+        params = [a[-1] for a in split_top(body[k + 1:p]) if a]
+        members[name] = (params, body[q + 1:e])
         i = e + 1
     return members
 
@@ -993,6 +1064,8 @@ def parse_base(pp, kwidents):
         elif st == ["if", "(", "!", "is_dummy", "<", "FeaturesCallback", ">", "::", "value", ")", "current_dimension", "=",
                     "features", ".", "dimension", "(", ")", ";", "else", "current_dimension", "=", "0", ";"]:
             steps.append("FrontStep.dimension")
+        elif opaque(st):
+            continue            # no effect on parameters, callbacks or control flow: not a step of the model
         else:
             raise TranslateError("unrecognised statement in ImplementationBase ctor: " + " ".join(st))
     # helpers
@@ -1035,7 +1108,7 @@ def parse_embed_front(pp, kwidents, ctor_steps, mt, methods, kwtypes):
     te = match_close(body, ti + 1)
     pre = statements(body[:ti])
     for st in pre:
-        if st not in (["Eigen", "::", "initParallel", "(", ")", ";"], ["TapkeeOutput", "output", ";"]):
+        if st not in (["Eigen", "::", "initParallel", "(", ")", ";"], ["TapkeeOutput", "output", ";"]) and not opaque(st, ("parameters",)):
             raise TranslateError("unrecognised statement before the try block of embed(): " + " ".join(st))
     steps = []
     embed_using = parse_embed_using(mt, methods)
@@ -1066,7 +1139,7 @@ def parse_embed_front(pp, kwidents, ctor_steps, mt, methods, kwtypes):
                 raise TranslateError("Context constructed from unexpected arguments")
             steps.append("FrontStep.context")
         elif st[:5] == ["Logging", "::", "instance", "(", ")"]:
-            steps.append("FrontStep.log")
+            continue            # logging: not a step of the model
         elif st[:5] == ["output", "=", "tapkee_internal", "::", "initialize"]:
             c = match_close(st, 5)
             args = [a for a in split_top(st[6:c])]
@@ -1077,6 +1150,8 @@ def parse_embed_front(pp, kwidents, ctor_steps, mt, methods, kwtypes):
                 raise TranslateError("unexpected continuation after initialize(...)")
             steps += ctor_steps
             steps += embed_using
+        elif opaque(st):
+            continue            # no effect on parameters, callbacks or control flow: not a step of the model
         else:
             raise TranslateError("unrecognised statement in embed(): " + " ".join(st))
     # catch clauses
@@ -1131,7 +1206,7 @@ def parse_embed_using(mt, methods):
     cbname = {"kernel": "KernelCallback", "distance": "DistanceCallback", "features": "FeaturesCallback"}
     for st in statements(body):
         if st[:2] == ["timed_context", "tctx__"]:
-            steps.append("FrontStep.log")
+            continue
         elif st == ["if", "(", "this", "->", "context", ".", "is_cancelled", "(", ")", ")", "throw", "cancelled_exception", "(", ")", ";"]:
             steps.append("FrontStep.cancel")
         elif st[:4] == ["if", "(", "method", "."] and st[4].startswith("needs_"):
@@ -1168,6 +1243,8 @@ def parse_embed_using(mt, methods):
                 steps.append("FrontStep.dispatch")
         elif st == ["return", "TapkeeOutput", "(", ")", ";"]:
             continue
+        elif opaque(st):
+            continue            # no effect on parameters, callbacks or control flow: not a step of the model
         else:
             raise TranslateError("unrecognised statement in embedUsing(): " + " ".join(st))
     parse_embed_using.dispatch = dispatch
@@ -1281,14 +1358,9 @@ def translate(ctx=None, repo=None, repo_hash=None, outdir=None):
     L.append("def validate : Meth → List VStmt")
     for m in methods:
         vb = impls[m["ident"]][0]
-        items = []
-        for st in statements(vb):
-            if is_check_stmt(st):
-                items.append("VStmt.check %s" % parse_check(st, kwidents)[0])
-            elif st[0] == "if":
-                items.append(parse_guarded(st, kwidents, kwtypes, m["ident"]))
-            else:
-                raise TranslateError("unrecognised statement in %s::validate(): %s" % (m["ident"], " ".join(st)))
+        BParser.env = {}
+        items = validate_items(vb, kwidents, kwtypes, m["ident"], impls[m["ident"]][3])
+        BParser.env = {}
         L.append("  | .%s => %s" % (mname(m["ident"]), lean_list(items, "    ")))
     L.append("\nend TapkeeVerif.Gen\n")
     files["Validate.lean"] = "\n".join(L)
@@ -1301,7 +1373,8 @@ def translate(ctx=None, repo=None, repo_hash=None, outdir=None):
     proj = []
     for m in methods:
         eb = impls[m["ident"]][1]
-        items, nst = embed_statements(eb, scanner, aux)
+        sc = EventScanner(kwidents, dict(helpers, **impls[m["ident"]][3])) if impls[m["ident"]][3] else scanner
+        items, nst = embed_statements(eb, sc, aux)
         L.append("  | .%s => %s" % (mname(m["ident"]), lean_list(items, "    ")))
         rets = [s for s in statements(eb) if s[0] == "return"]
         if len(rets) != 1:
